@@ -44,12 +44,12 @@ PROPS = {
                 builds=("debug", "release"), nq=200),
     "C05": spec(["IncrVerif.Props.C05"], [("general", 0.3), ("bind", 0.3), ("expert", 0.25), ("life", 0.15)], ["api", "ev", "stats"],
                 GEN + "non-trivial = distinct history in which node functions ran"),
-    "C07": spec(["IncrVerif.Props.C07"], [("varw", 0.4), ("general", 0.4), ("life", 0.2)], ["api", "read", "ev"],
+    "C07": spec(["IncrVerif.Props.C07"], [("varw", 0.35), ("general", 0.3), ("life", 0.15), ("expert", 0.2)], ["api", "read", "ev"],
                 GEN + "reads of every observer after every action, and from inside node functions and handlers (readobs effects); "
                 "non-trivial = distinct history with observer reads that succeed"),
     "C08": spec(["IncrVerif.Props.C08"], [("varw", 0.7), ("general", 0.3)], ["api", "ev", "read", "stats"],
                 GEN + "profile varw: writes from node functions and handlers, several readers; non-trivial = distinct history in which node functions ran"),
-    "C10": spec(["IncrVerif.Props.C10"], [("life", 0.6), ("subs", 0.4)], ["api", "read"],
+    "C10": spec(["IncrVerif.Props.C10"], [("life", 0.6), ("subs", 0.4)], ["api", "read", "ev"],
                 GEN + "profile life: observer-API heavy; non-trivial = distinct history with observer reads"),
     "C11": spec(["IncrVerif.Props.C11Heap"], [("general", 0.3), ("bind", 0.3), ("expert", 0.2), ("subs", 0.2)],
                 ["snap", "heap", "stats", "audit"],
@@ -73,6 +73,23 @@ PROPS = {
                 "or two binds, stabilise called from a node function and from a handler; every history ends by dropping every handle and the state; "
                 "both build profiles; non-trivial = distinct history in which node functions ran or a panic was produced",
                 builds=("debug", "release"), require_wf=False, nq=200),
+    "C12": spec(["IncrVerif.Props.C12"], [("memo", 0.3), ("bind", 0.25), ("general", 0.2), ("perkey", 0.15), ("expert", 0.1)],
+                ["api", "snap", "read"],
+                GEN + "every history of these profiles also drops handles (drophandle on top-level results incl. memoised nodes, dropobs, dropvar) and "
+                "profiles memo/maps/perkey/limits end with dropping EVERY handle and the state; both sides list the nodes still allocated after every "
+                "action (implementation: registry weak references that still upgrade; model: aliveSet) and the lists must be EQUAL; the implementation also "
+                "reports its strong references and the live-node counter after the final drop; non-trivial = distinct history in which node functions ran",
+                nq=240),
+    "C16": spec(["IncrVerif.Props.C16"], [("perkey", 1.0)], ["api", "ev", "read", "snap"],
+                "profile perkey: incr_mapi_ / incr_mapi_cutoff on BTreeMap and OrdMap with six per-key families (pure function of value and key; ignores its "
+                "input; one shared pre-existing node; map2 with an outer variable; chain; bind on the value), all cutoff variants, edits of the input map "
+                "(insert/remove/change/empty/refill/equal), writes to the outer variable, observe/unobserve/re-observe, final drop of everything; "
+                "non-trivial = distinct history in which a per-key function was built",
+                builds=("debug", "release"), nq=150, nt=6000),
+    "C20": spec(["IncrVerif.Props.C20"], [("memo", 1.0)], ["api", "ev", "read", "snap"],
+                "profile memo: two memoised functions (templates over outer vars and the key) called from top level and from bind bodies incl. a nested "
+                "bind, returned nodes observed / handles dropped, binds re-run by writes, stabilises in between, final drop of everything; "
+                "non-trivial = distinct history in which a memoised function ran"),
     "C13": spec(["IncrVerif.Props.C13"], [("general", 0.3), ("bind", 0.3), ("subs", 0.2), ("expert", 0.2)],
                 ["api", "read", "ev-propagation"],
                 GEN + "each base history is turned into one variant per user-closure invocation (node function, fold pass, map_with_old, bind "
